@@ -64,5 +64,6 @@ mod tests {
 /// (compiled only with `--cfg rip_verif`; see /verif/DESIGN.md §4.4).
 #[cfg(rip_verif)]
 pub mod verif_export {
+    pub use crate::checkpoints::WorkspaceCheckpointHook;
     pub use crate::session::verif_hooks as session;
 }
